@@ -31,6 +31,35 @@ func H_Legacy_Apply() {
 			return
 		}
 	}
+	checkLegacy(doc, ops)
+}
+
+// H_Legacy_TestOp: the test operation as a relation between two values (see H_TestOp); the target sits under a
+// member or at an array element (the empty pointer is outside the legacy domain).
+func H_Legacy_TestOp() {
+	nsh := vx.ParamOr("shapes", nEqShapes)
+	X := eqShape(vx.Choose("sx", nsh), "x.")
+	vx.Assume(!X.hasDupKeys())
+	Y := eqShape(vx.Choose("sy", nsh), "y.")
+	vx.Assume(!Y.hasDupKeys())
+	var doc *JV
+	var ptr Ptr
+	switch vx.Choose("where", 2) {
+	case 0:
+		doc = jObj().with("t", X).with("z", symNum("d.z"))
+		ptr = Ptr{Toks: []Tok{{Raw: []byte("t"), Name: []byte("t")}}}
+	case 1:
+		doc = jArr(symNum("d.z"), X)
+		ptr = Ptr{Toks: []Tok{{Raw: []byte("1"), Name: []byte("1")}}}
+	}
+	ops := []Op{{Kind: OpTest, Path: ptr, Val: Y, HasVal: true}}
+	if vx.ParamOr("then", 0) == 1 {
+		ops = append(ops, Op{Kind: OpAdd, Path: Ptr{Toks: []Tok{{Raw: []byte("-"), Name: []byte("-")}}}, Val: jBool(true), HasVal: true})
+	}
+	checkLegacy(doc, ops)
+}
+
+func checkLegacy(doc *JV, ops []Op) {
 	neg := vx.Choose("negidx", 2) == 1
 	jsonpatch.SupportNegativeIndices = neg
 	var limit int64
